@@ -437,7 +437,12 @@ func c19ExecQuery(c c19QCase) kit.Outcome {
 
 	feature := "plain"
 	if ref.Quotes {
-		feature = "quoted"
+		feature = "quoted-first"
+		for i, t := range ref.Terms {
+			if t.Quoted && i > 0 {
+				feature = "quoted-not-first"
+			}
+		}
 	}
 	if ref.Unspec != "" {
 		o.Classes = append(o.Classes, "unspecified:"+ref.Unspec)
